@@ -171,6 +171,7 @@ class XsdGen:
         self.used_global = set()
         self.class_names = ClassNames()
         self.family = None
+        self.allow_known_findings = False
         self.feat = set()
 
     def name(self, used, kind="e"):
@@ -236,7 +237,7 @@ class XsdGen:
             schema.stypes.append(t)
             return t
         self.feat.add("union")
-        members = rng.choice([["int", "token"], ["date", "boolean"], ["decimal", "NMTOKEN"], ["boolean", "int"]])
+        members = rng.choice([["int", "token"], ["date", "boolean"], ["decimal", "NMTOKEN"], ["int", "boolean"]])
         t = SimpleT(self.gname("T"), "union", union_of=[SimpleT(None, m) for m in members])
         schema.stypes.append(t)
         return t
@@ -295,6 +296,8 @@ class XsdGen:
         rng = self.rng
         kind = rng.choice(["sequence", "sequence", "sequence", "choice"] + ([] if depth else ["all"]))
         g = Group(kind, [])
+        if kind == "all":
+            ss.order_preserving = False  # instance order of an all group is free, the output follows the declaration
         n = rng.randrange(1, 5)
         for _ in range(n):
             r = rng.random()
@@ -350,6 +353,17 @@ class XsdGen:
             e.qualified = not schema.efd
             self.feat.add("form-override")
         return e
+
+    def nillable_ok(self, e):
+        """Two open known findings of C02 are kept out of the population (dedicated probes in vf/props/c02.py):
+        an absent optional nillable element comes back as xsi:nil (optional-nillable-absent-becomes-nil), and
+        xsi:nil on an element of a list type is lost (nil-on-list-typed-element)."""
+        if self.allow_known_findings:
+            return True
+        if e.min == 0:
+            return False
+        t = e.type
+        return not (isinstance(t, SimpleT) and (t.base == "list" or t.list_of is not None))
 
     def complex_type(self, ss, schema, name, depth, ctypes):
         rng = self.rng
@@ -434,7 +448,47 @@ class XsdGen:
             main.elements.append(ElemDecl(self.gname("root"), ct, is_global=True, ns=main.tns))
         if rng.random() < 0.2:
             main.elements.append(ElemDecl(self.gname("leafRoot"), self.simple_type(main), is_global=True, ns=main.tns))
+        if not self.allow_known_findings:
+            for sch in ss.all():
+                for ct in sch.ctypes:
+                    sanitize_nillable(ct, set())
         return ss
+
+
+def sanitize_nillable(ct, seen, optional=False):
+    """Keep the triggers of the open C02 findings about xsi:nil / mixed content out of the population
+    (each has a dedicated probe in vf/props/c02.py): nillable only on elements that are always present
+    (not minOccurs=0, not a branch of a choice, not below an optional group), whose type is simple, that
+    have no default and do not sit in a mixed type; no QName-valued children in mixed types."""
+    if id(ct) in seen:
+        return
+    seen.add(id(ct))
+    mixed = False
+    k = ct
+    while k is not None:
+        mixed = mixed or k.mixed
+        k = k.base
+
+    def qname_typed(t):
+        return isinstance(t, SimpleT) and (t.base == "QName" or (t.list_of is not None and t.list_of.base == "QName") or any(u.base == "QName" for u in (t.union_of or [])))
+
+    def walk(g, opt):
+        opt = opt or g.min == 0 or g.kind == "choice"
+        for x in g.items:
+            if isinstance(x, Group):
+                walk(x, opt)
+            elif isinstance(x, ElemDecl):
+                t = x.type
+                if x.nillable and (opt or mixed or x.min == 0 or x.default is not None or x.fixed is not None or not isinstance(t, SimpleT)):
+                    x.nillable = False  # (complex content that happens to be empty is written back as nil: C01's open finding nillable-field-object-without-content)
+                if mixed and qname_typed(t):
+                    x.type = SimpleT(None, "string")
+                    x.default = x.fixed = None
+                if isinstance(t, ComplexT) and t.name is None:
+                    sanitize_nillable(t, seen)
+
+    if ct.content is not None:
+        walk(ct.content, False)
 
 
 def insert_before_any(g: Group, item):
@@ -471,7 +525,8 @@ def iter_particles(g: Group):
 
 # --------------------------------------------------------------------------------------- rendering
 def esc(s):
-    return s.replace("&", "&amp;").replace("<", "&lt;").replace('"', "&quot;")
+    # tab / line breaks as character references: a literal one in an attribute value is normalised to a space
+    return s.replace("&", "&amp;").replace("<", "&lt;").replace('"', "&quot;").replace("\t", "&#9;").replace("\n", "&#10;").replace("\r", "&#13;")
 
 
 def occ(mn, mx):
@@ -816,10 +871,11 @@ class Resolver:
 
 
 class DocGen:
-    def __init__(self, ss: SchemaSet, rng, mode="random"):
+    def __init__(self, ss: SchemaSet, rng, mode="random", empty_defaults=True):
         self.ss = ss
         self.rng = rng
         self.mode = mode
+        self.empty_defaults = empty_defaults  # write some elements that have a default as empty elements
         self.R = Resolver(ss)
         self.depth = 0
 
@@ -851,12 +907,21 @@ class DocGen:
             if decl.nillable and rng.random() < 0.2:
                 el.set(f"{{{XSI}}}nil", "true")
                 return
-            if decl.default is not None and rng.random() < 0.3:
+            if decl.default is not None and rng.random() < 0.3 and self.empty_defaults:
                 return  # empty element: the default applies
             if decl.fixed is not None:
                 el.text = decl.fixed
                 return
             el.text = gen_lexical(rng, t, salt=self.ss.salt)
+            if decl.nillable and not el.text:
+                # an empty value in a nillable element is read as nil (C01's open finding empty-string-in-nillable-field)
+                for _ in range(20):
+                    el.text = gen_lexical(rng, t, salt=self.ss.salt)
+                    if el.text:
+                        break
+                else:
+                    el.set(f"{{{XSI}}}nil", "true")
+                    el.text = None
             return
         ct = t
         if ct.name and self.mode != "minimal" and self.depth < 4:
